@@ -2591,3 +2591,14 @@ variant('b-refused-request-released-but-swallowed', ['C10', 'C14'], RB,
 variant('t-refused-request-handler-catches-exception', ['C10', 'C14', 'C01'], RB,
         "        except asyncio.QueueFull:\n            # the request is refused",
         "        except Exception:\n            # the request is refused", kind='twin')
+
+# layout: accumulation into a bytearray, bytes() copy (seed C18m answered exit 2 before)
+variant_multi('t-composite-accumulates-into-a-bytearray', ['C18', 'C19'], [
+    ('rsocket/extensions/composite_metadata.py', "    def serialize(self) -> bytes:\n        serialized = b''\n\n        for item in self.items:",
+     "    def serialize(self) -> bytes:\n        serialized = bytearray()\n\n        for item in self.items:"),
+    ('rsocket/extensions/composite_metadata.py', "            serialized += item_serialized\n\n        return serialized\n",
+     "            serialized += item_serialized\n\n        return bytes(serialized)\n")], kind='twin')
+variant('b-composite-skips-entries-with-an-empty-body', ['C18'], 'rsocket/extensions/composite_metadata.py',
+        "            item_metadata = item.serialize()\n\n            item_serialized = b''\n",
+        "            item_metadata = item.serialize()\n            if not item_metadata:\n                continue\n\n            item_serialized = b''\n",
+        ('C18.d', 'CompositeMetadata.serialize'))
